@@ -147,11 +147,15 @@ func c06Netns(c *Ctx) {
 			return n
 		}
 		histBefore := total()
-		hist := c06History(r, u, cfg, serial, [][4]byte{{10, 77, 0, 2}, {10, 77, 0, 3}, {10, 77, 0, 4}, {10, 77, 0, 5}, {127, 0, 0, 1}}, i%40 == 7, func(hop *rm.Op, hs uint32, ha rm.Vals) {
+		hist := c06History(r, u, cfg, serial, [][4]byte{{10, 77, 0, 2}, {10, 77, 0, 3}, {10, 77, 0, 4}, {10, 77, 0, 5}, {127, 0, 0, 1}}, i%8 == 7, func(hop *rm.Op, hs uint32, ha rm.Vals) {
 			remember(hop.Request(hs, ha))
 			cur.Lock()
 			cur.op, cur.noise, cur.delay = hop, nil, 0
-			cur.reply = validReply(r, hop, hs+map[bool]uint32{true: 77, false: 0}[hop.Discovery], ha)
+			cur.reply = validReply(r, hop, hs, ha)
+			if hop.Discovery {
+				// an earlier discovery is answered by the judged controller itself, reporting whatever address it has (2 of 3), or by another one
+				cur.reply = validReply(r, hop, map[bool]uint32{true: serial, false: 77}[r.Pick(3) > 0], ha)
+			}
 			cur.Unlock()
 		})
 		if len(hist) > 0 {
